@@ -238,6 +238,17 @@ fn mk(actor: String, ev: &Ev, r: u64, flag: u8) -> Raw {
 }
 
 fn after(ev: &Ev, r: u64, flag: u8) {
+    // the log lock taken in `before` must be released whatever happened to MODE in between
+    // (live_stop may flip it while this thread sleeps in the perturbation)
+    if HOLD.get() {
+        HOLD.set(false);
+        if MODE.load(Ordering::Relaxed) == MODE_LIVE {
+            LIVE_LOG.lock().unwrap_or_else(|e| e.into_inner()).push(mk(live_actor(), ev, r, flag));
+            LIVE_EVENTS.fetch_add(1, Ordering::Relaxed);
+        }
+        logunlock();
+        return;
+    }
     match MODE.load(Ordering::Relaxed) {
         MODE_DET => {
             let me = ME.get();
